@@ -282,6 +282,17 @@ def jobs_for(prop: str, repo_root: str, typed: bool) -> List[tuple]:
         source = base[rel]
         overlay = {rel: source.replace(old, new, 1)} if source.count(old) == 1 else None
         jobs.append((prop, kind, name, overlay, rule, repo_root))
+    # generic neutral variant: every module re-emitted by ast.unparse (comments dropped, layout and quoting normalised)
+    if prop not in ("C05", "C13", "C17") or typed:
+        try:
+            import ast as _ast
+            reformatted = {}
+            base_repo = Repo(repo_root)
+            for rel, module in base_repo.modules.items():
+                reformatted[rel] = _ast.unparse(_ast.parse(module.source)) + "\n"
+            jobs.append((prop, N, "whole package re-emitted by ast.unparse (formatting-only change)", reformatted, "", repo_root))
+        except (SyntaxError, AnalysisError):
+            pass
     seeds = os.path.join(VERIF, "seeded")
     if os.path.isdir(seeds):
         for entry in sorted(os.listdir(seeds)):
